@@ -387,7 +387,7 @@ pub fn run(ctx: &Ctx) {
         }
         v.into_iter()
     }, false, false);
-    ctx.run_prop(&Num, ctx.n(1_000_000, 50_000_000));
+    ctx.run_prop(&Num, ctx.n(4_000_000, 50_000_000));
     // strings: every name x every letter-case mask, every proper prefix and one-letter extension
     let names: Vec<&'static str> = WD_SHORT.iter().chain(WD_LONG.iter()).chain(MO_SHORT.iter()).chain(MO_LONG.iter()).copied().collect();
     let names = &names;
@@ -401,5 +401,5 @@ pub fn run(ctx: &Ctx) {
         }
         v.into_iter()
     }, false, false);
-    ctx.run_prop(&Text, ctx.n(600_000, 50_000_000));
+    ctx.run_prop(&Text, ctx.n(2_500_000, 50_000_000));
 }
